@@ -102,7 +102,11 @@ def state_level(ck, rng, states, lams, cap):
         if n > cap:
             break
         fam = "nldf-" + cfg["nldf"]["ver"] if cfg["nldf"] != [] else ("sdmx" if cfg["sdmx"]["kind"] != "none" else ("fl" if cfg["fl"]["present"] else "sl"))
-        usps = np.array(st.get_feat_usps(), dtype=float)
+        try:
+            usps = np.array(st.get_feat_usps(), dtype=float)
+        except Exception as ex:  # a valid configuration whose declared powers cannot be obtained
+            ck.violation("declared-usps:%s:raises-%s" % (fam, type(ex).__name__), {"cfg": cfg, "error": str(ex)[:200]}, replay={"cfg": cfg})
+            continue
         ck.count(key=("state", repr(cfg)))
         if len(usps) != attr["nfeat"] or np.abs(usps - np.array(attr["usps"], dtype=float)).max(initial=0) > 1e-12:
             ck.violation("declared-usps:%s:differ-from-spec" % fam, {"cfg": cfg, "impl": usps.tolist(), "spec": attr["usps"]}, replay={"cfg": cfg})
